@@ -662,3 +662,93 @@ pub fn run_e2e(args: &Args) {
         f
     });
 }
+
+/// Directed probe (not part of any check): a ligature anchor with a large component index, `top_<idx>`.
+/// `vharness c10probe --seed <idx> --n 1`
+pub fn run_probe(args: &Args) {
+    let idx = args.seed;
+    crate::run_cases("c10probe", args, move |_| {
+        let mut rng = Rng::new(1);
+        let mut o = design::GenOpts::default();
+        o.max_axes = 1; o.max_glyphs = 3; o.composites = false; o.sparse = false; o.intermediate = false;
+        let mut d = design::gen_design(&mut rng, &o);
+        d.masters.truncate(1);
+        let names: Vec<String> = d.glyph_order.clone().unwrap();
+        let dm = d.default_master;
+        d.masters[dm].glyphs.get_mut(&names[0]).unwrap().anchors = vec![(format!("top_{idx}"), 100.0, 200.0), ("top_1".into(), 10.0, 20.0)];
+        d.masters[dm].glyphs.get_mut(&names[1]).unwrap().anchors = vec![("_top".into(), 50.0, 60.0)];
+        let tmp = build::tmpdir("c10probe");
+        let ds = write::write_design(tmp.path(), &d);
+        let t0 = std::time::Instant::now();
+        let res = build::compile(&ds, &build::BuildOpts::default());
+        let dt = t0.elapsed().as_millis();
+        match res {
+            Ok(bytes) => vec![S::k1("result", S::atom("ok")), S::k1("bytes", S::usize(bytes.len())), S::k1("ms", S::usize(dt as usize)), dump_gpos_marks(&bytes)],
+            Err(e) => vec![S::kv("result", [S::atom("err"), S::atom(e.replace(' ', "_").chars().take(300).collect::<String>())]), S::k1("ms", S::usize(dt as usize))],
+        }
+    });
+}
+
+/// Directed probe (not part of any check): `n` base glyphs with a `top` anchor each (distinct coordinates) and one mark.
+/// `vharness c10probe2 --seed <n> --n 1`
+pub fn run_probe2(args: &Args) {
+    let n = args.seed as usize;
+    let variable = args.rest.iter().any(|r| r == "variable");
+    let args = &Args { seed: args.seed, n: 1, from: 0, rest: vec![] };
+    crate::run_cases("c10probe2", args, move |_| {
+        let mut rng = Rng::new(1);
+        let mut o = design::GenOpts::default();
+        o.max_axes = 1; o.max_glyphs = 2; o.composites = false; o.sparse = false; o.intermediate = false;
+        let mut d = design::gen_design(&mut rng, &o);
+        d.masters.truncate(1);
+        let dm = d.default_master;
+        let mut order = vec![];
+        d.masters[dm].glyphs.clear();
+        d.codepoints.clear();
+        for i in 0..n {
+            let name = format!("b{i}");
+            let g = design::GlyphDef { advance: 500.0, anchors: vec![("top".into(), (i % 3000) as f64, 500.0 + (i / 3000) as f64)], ..Default::default() };
+            d.masters[dm].glyphs.insert(name.clone(), g);
+            order.push(name);
+        }
+        d.masters[dm].glyphs.insert("acutecomb".into(), design::GlyphDef { advance: 0.0, anchors: vec![("_top".into(), 50.0, 60.0)], ..Default::default() });
+        order.push("acutecomb".into());
+        d.glyph_order = Some(order);
+        if variable {
+            // a second master at the axis maximum (or minimum) with every anchor moved by a different amount
+            let a = &d.axes[0];
+            let other = if a.default < a.max { a.max } else { a.min };
+            let mut m = d.masters[dm].clone();
+            m.name = "M1".into(); m.style = "Other".into(); m.loc = vec![other];
+            for (i, (_, g)) in m.glyphs.iter_mut().enumerate() {
+                for an in g.anchors.iter_mut() { an.1 += 1.0 + (i % 97) as f64; an.2 += 1.0 + (i % 89) as f64; }
+            }
+            d.masters.push(m);
+        }
+        let tmp = build::tmpdir("c10probe2");
+        let ds = write::write_design(tmp.path(), &d);
+        let t0 = std::time::Instant::now();
+        let res = build::compile(&ds, &build::BuildOpts::default());
+        let dt = t0.elapsed().as_millis();
+        match res {
+            Ok(bytes) => {
+                let font = FontRef::new(&bytes).unwrap();
+                let mut covered = 0usize; let mut subtables = 0usize; let mut lookups = 0usize;
+                if let Ok(gpos) = font.gpos() {
+                    if let Ok(ll) = gpos.lookup_list() {
+                        for lk in ll.lookups().iter().flatten() {
+                            if let Ok(PositionSubtables::MarkToBase(st)) = lk.subtables() {
+                                lookups += 1;
+                                for t in st.iter().flatten() { subtables += 1; covered += t.base_coverage().map(|c| c.iter().count()).unwrap_or(0); }
+                            }
+                        }
+                    }
+                }
+                vec![S::k1("result", S::atom("ok")), S::k1("bytes", S::usize(bytes.len())), S::k1("ms", S::usize(dt as usize)),
+                     S::k1("has_gpos", S::bool(font.gpos().is_ok())), S::k1("markbase_lookups", S::usize(lookups)),
+                     S::k1("subtables", S::usize(subtables)), S::k1("bases_covered", S::usize(covered)), S::k1("bases_in_source", S::usize(n))]
+            }
+            Err(e) => vec![S::kv("result", [S::atom("err"), S::atom(e.replace(' ', "_").chars().take(300).collect::<String>())]), S::k1("ms", S::usize(dt as usize))],
+        }
+    });
+}
